@@ -113,8 +113,40 @@ def cxx():
     return os.environ.get("VERIF_CXX", "g++")
 
 
+def eigen_source_flags():
+    """The per-source compile flags primitiv/CMakeLists.txt gives the Eigen kernels under GCC
+    (`set_source_files_properties(${primitiv_eigen_ops_SRCS} PROPERTIES COMPILE_FLAGS ...)`):
+    read from the working tree on every build, so that the checks run the Eigen backend as
+    the repository builds it and see a change of those flags (today the only flag is -march=native,
+    which is the one kind of flag that is not taken over, see below).  Version-conditional warning
+    switches are skipped."""
+    import re
+    try:
+        txt = read(os.path.join(REPO, "primitiv", "CMakeLists.txt"))
+    except OSError:
+        return []
+    if isinstance(txt, bytes):
+        txt = txt.decode("utf-8", "replace")
+    m = re.search(r'if\(CMAKE_CXX_COMPILER_ID MATCHES "GNU"\)(.*?)elseif\(CMAKE_CXX_COMPILER_ID MATCHES "Clang"\)', txt, re.S)
+    body = m.group(1) if m else ""
+    body = re.sub(r'if\s*\(CMAKE_CXX_COMPILER_VERSION.*?endif\(\)\s*endif\(\)', "", body, flags=re.S)
+    out = []
+    for lit in re.findall(r'set\(\s*primitiv_eigen_COMPILE_FLAGS\s*"([^"]*)"\s*\)', body, re.S):
+        out += [t for t in lit.split() if t.startswith("-") and not t.startswith("-W")]
+    # The instruction-set selection is NOT taken over: with -march=native the vector width (hence which elements go
+    # through Eigen's packet kernels and which through the scalar head/tail) depends on the host and on the alignment
+    # of each buffer, so results differ in the last bit between two same-seeded devices of one process (observed under
+    # AVX-512: gumbel) — a check could not tell that from a defect.  The kernels are built for the baseline x86-64 ISA.
+    return [t for t in out if not (t.startswith("-march") or t.startswith("-mtune") or t.startswith("-mavx") or t.startswith("-msse") or t.startswith("-mfma"))]
+
+
+def is_eigen_kernel(src):
+    return "/primitiv/devices/eigen/ops/" in src.replace(os.sep, "/")
+
+
 def compile_one(src, obj, flags, incs):
-    cmd = [cxx()] + COMMON + flags + incs + ["-c", src, "-o", obj + ".tmp%d" % os.getpid()]
+    extra = eigen_source_flags() if is_eigen_kernel(src) else []
+    cmd = [cxx()] + COMMON + flags + extra + incs + ["-c", src, "-o", obj + ".tmp%d" % os.getpid()]
     r = subprocess.run(cmd, capture_output=True, text=True)
     if r.returncode != 0:
         return (src, r.stderr[-4000:])
@@ -138,7 +170,8 @@ def build_lib(variant="asan", jobs=None, verbose=False):
     os.makedirs(objdir, exist_ok=True)
     todo, objs = [], []
     for src in lib_sources():
-        key = sha(variant, " ".join(flags), hh, os.path.relpath(src, REPO), read(src), read(os.path.join(cfg, "primitiv/config.h")))
+        key = sha(variant, " ".join(flags + (eigen_source_flags() if is_eigen_kernel(src) else [])), hh, os.path.relpath(src, REPO), read(src),
+                  read(os.path.join(cfg, "primitiv/config.h")))
         obj = os.path.join(objdir, key + ".o")
         objs.append(obj)
         if not os.path.exists(obj):
